@@ -154,6 +154,43 @@ fn single_write_faults(span: usize) -> Vec<IoPlan> {
     plans
 }
 
+/// Every pair of events (two offsets, two kinds) under three chunkings: the
+/// complete double-fault space of one record (thorough tier).
+fn double_faults(span: usize, write_side: bool) -> Vec<IoPlan> {
+    let kinds: Vec<IoEv> = vec![
+        IoEv::Interrupt(1),
+        IoEv::Interrupt(3),
+        IoEv::Zero,
+        IoEv::Err {
+            kind: if write_side { ErrK::StorageFull } else { ErrK::ConnectionReset },
+            sticky: true,
+        },
+        IoEv::Err {
+            kind: ErrK::Other,
+            sticky: false,
+        },
+    ];
+    let mut plans = Vec::new();
+    for chunks in [vec![], vec![1usize], vec![7usize, 3]] {
+        for o1 in 0..span {
+            for o2 in o1..=span.min(o1 + 40) {
+                if o2 > span {
+                    continue;
+                }
+                for k1 in &kinds {
+                    for k2 in &kinds {
+                        plans.push(IoPlan {
+                            chunks: chunks.clone(),
+                            events: vec![IoEvent { off: o1, ev: *k1 }, IoEvent { off: o2, ev: *k2 }],
+                        });
+                    }
+                }
+            }
+        }
+    }
+    plans
+}
+
 fn one_record(payload: Payload, wplan: IoPlan, rplan: IoPlan, recv: RecvMode) -> Record {
     Record {
         payload,
@@ -187,6 +224,24 @@ pub fn c02_cases(c: &Corpus, quick: bool) -> Vec<IoRun> {
                     )],
                     ..Default::default()
                 });
+            }
+        }
+    }
+    if !quick {
+        let dplans = double_faults(32, false);
+        for b in [&c.valid[9], &bases[bases.len() - 2]] {
+            for as_ in [ElemAs::Element, ElemAs::Affine, ElemAs::Encoding] {
+                for p in &dplans {
+                    out.push(IoRun {
+                        records: vec![one_record(
+                            Payload::RawElem { bytes: hex(b), as_ },
+                            IoPlan::default(),
+                            p.clone(),
+                            RecvMode::Compressed,
+                        )],
+                        ..Default::default()
+                    });
+                }
             }
         }
     }
@@ -305,6 +360,26 @@ pub fn c03_cases(c: &Corpus, quick: bool) -> Vec<IoRun> {
     let mut out = Vec::new();
     let progs = c03_programs(c);
     let plans = single_write_faults(32);
+    if !quick {
+        let dplans = double_faults(32, true);
+        for prog in [&progs[7], &progs[progs.len() - 6]] {
+            let last = prog.len() - 1;
+            for as_ in [ElemAs::Element, ElemAs::Affine, ElemAs::Encoding] {
+                for p in &dplans {
+                    out.push(IoRun {
+                        pool: (*prog).clone(),
+                        records: vec![one_record(
+                            Payload::Elem { idx: last, as_ },
+                            p.clone(),
+                            IoPlan::default(),
+                            RecvMode::Compressed,
+                        )],
+                        ..Default::default()
+                    });
+                }
+            }
+        }
+    }
     for (gi, prog) in progs.iter().enumerate() {
         let last = prog.len() - 1;
         for as_ in [ElemAs::Element, ElemAs::Affine, ElemAs::Encoding] {
@@ -466,6 +541,39 @@ pub fn c11_cases(quick: bool) -> Vec<IoRun> {
                             Payload::Field { idx: 0, flag: *flag },
                             IoPlan::default(),
                             p.clone(),
+                            RecvMode::Compressed,
+                        )],
+                        ..Default::default()
+                    });
+                }
+            }
+        }
+        if !quick {
+            let v = &vals[5];
+            let fop = FieldOp {
+                which: w,
+                src: FSrc::Checked(hex(&f.to_le(v))),
+            };
+            for flag in [FlagV::Plain, FlagV::TE(true), FlagV::SW(1)] {
+                for p in double_faults(f.nbytes, true) {
+                    out.push(IoRun {
+                        fpool: vec![fop.clone()],
+                        records: vec![one_record(
+                            Payload::Field { idx: 0, flag },
+                            p,
+                            IoPlan::default(),
+                            RecvMode::Compressed,
+                        )],
+                        ..Default::default()
+                    });
+                }
+                for p in double_faults(f.nbytes, false) {
+                    out.push(IoRun {
+                        fpool: vec![fop.clone()],
+                        records: vec![one_record(
+                            Payload::Field { idx: 0, flag },
+                            IoPlan::default(),
+                            p,
                             RecvMode::Compressed,
                         )],
                         ..Default::default()
